@@ -4,13 +4,16 @@ import (
 	"fmt"
 	"go/ast"
 	"go/types"
+	"hzcheck/core"
 	"sort"
 	"strings"
 
 	"golang.org/x/tools/go/ssa"
 )
 
-func init() { register("C13", c13Stable, c13Append, c13Accumulate, c13Release, c13Len, c13Remainder, c13Window, c13Alias) }
+func init() {
+	register("C13", c13Stable, c13Append, c13Accumulate, c13Release, c13Len, c13Remainder, c13Window, c13Alias)
+}
 
 const pkgStd = Mod + "/pkg/network/standard"
 
@@ -152,26 +155,54 @@ func c13Append(e *Env) {
 	}
 	info := fill.Pkg.TypesInfo
 	n := 0
-	ast.Inspect(fill.Decl.Body, func(nd ast.Node) bool {
-		c, ok := nd.(*ast.CallExpr)
-		if !ok {
+	// fill and the private helpers only it calls (a read loop moved out of fill)
+	family := []*core.FuncInfo{fill}
+	for _, c := range funcsCallingIn(fill, func(f *types.Func) bool {
+		rn := recvNamed(f)
+		return rn != nil && rn.Obj().Name() == "Conn" && !f.Exported()
+	}) {
+		if d := w.DeclOf(calleeOf(info, c)); d != nil && d != fill && d.Decl.Body != nil {
+			onlyFill := true
+			for _, o := range declaredNonTest(w) {
+				if o != fill && o.Pkg == fill.Pkg && len(funcsCallingIn(o, func(f *types.Func) bool { return f == d.Obj })) > 0 {
+					onlyFill = false
+				}
+			}
+			if onlyFill {
+				family = append(family, d)
+			}
+		}
+	}
+	inFamily := map[string]bool{}
+	for _, d := range family {
+		inFamily[d.Obj.Name()] = true
+	}
+	for _, member := range family {
+		ast.Inspect(member.Decl.Body, func(nd ast.Node) bool {
+			c, ok := nd.(*ast.CallExpr)
+			if !ok {
+				return true
+			}
+			f := calleeOf(info, c)
+			if f == nil || f.Name() != "Read" || len(c.Args) != 1 {
+				return true
+			}
+			n++
+			okSlice := false
+			if se, ok := unparen(c.Args[0]).(*ast.SliceExpr); ok && se.Low != nil && usedVar(info, se.Low) == malloc && se.High == nil {
+				okSlice = true
+			}
+			r.Check(okSlice, rule, fmt.Sprintf("Conn.fill:read#%d", n), w.Pos(c.Pos()), "the connection is read into buf[malloc:] only", "fill reads into `"+types.ExprString(c.Args[0])+"`: bytes that were received (and possibly peeked) but not consumed can be overwritten")
 			return true
-		}
-		f := calleeOf(info, c)
-		if f == nil || f.Name() != "Read" || len(c.Args) != 1 {
-			return true
-		}
-		n++
-		okSlice := false
-		if se, ok := unparen(c.Args[0]).(*ast.SliceExpr); ok && se.Low != nil && usedVar(info, se.Low) == malloc && se.High == nil {
-			okSlice = true
-		}
-		r.Check(okSlice, rule, fmt.Sprintf("Conn.fill:read#%d", n), w.Pos(c.Pos()), "the connection is read into buf[malloc:] only", "fill reads into `"+types.ExprString(c.Args[0])+"`: bytes that were received (and possibly peeked) but not consumed can be overwritten")
-		return true
-	})
+		})
+	}
 	r.Floor(rule, n, 1, "underlying reads in Conn.fill")
 	// offset writers in the observing operations
-	for _, name := range []string{"Peek", "peekBuffer", "fill", "Skip", "ReadByte", "ReadBinary", "Len"} {
+	names := []string{"Peek", "peekBuffer", "fill", "Skip", "ReadByte", "ReadBinary", "Len"}
+	for _, d := range family[1:] {
+		names = append(names, d.Obj.Name())
+	}
+	for _, name := range names {
 		fi := w.Func("pkg/network/standard", "Conn", name)
 		if fi == nil {
 			continue
@@ -190,7 +221,7 @@ func c13Append(e *Env) {
 				}
 				k++
 				key := fmt.Sprintf("Conn.%s:%s-write#%d", name, v.Name(), k)
-				ok := as.Tok.String() == "+=" && ((v == malloc && name == "fill") || (v == off && name == "Skip"))
+				ok := as.Tok.String() == "+=" && ((v == malloc && inFamily[name]) || (v == off && name == "Skip"))
 				r.Check(ok, rule, key, w.Pos(as.Pos()), "offsets only advance: malloc += n in fill, off += n in Skip", "`"+types.ExprString(l)+" "+as.Tok.String()+" …` in "+name+" moves a buffer offset in a way that can expose stale or drop unread bytes")
 			}
 			return true
